@@ -10,11 +10,13 @@ PID = "C17"
 LEAN_MODULE = "NiVerif.Props.C17"
 NAMESPACE = "Props.C17"
 DRIVER = "drivers/C17.lean"
-GEN_MODULES = []
+GEN_MODULES = ["BtArray"]
 EXTRA_LEAN_MODULES = ["NiVerif.Model.BtArray"]
 THEOREMS = ["clamp_bounds", "indices_step1", "rangeLen_step1", "scatter_consecutive", "setSlice_refines", "insert_refines",
             "append_refines", "item_ops_refine", "slice_read_delete_refine", "pop_refines", "remove_refines",
-            "errors_as_list", "zero_step_ValueError"]
+            "errors_as_list", "zero_step_ValueError",
+            "gen_setitem_slice_eq_model", "gen_delitem_int_eq_model", "gen_delitem_slice_eq_model", "gen_insert_eq_model", "contains_range1", "filter_outside",
+            "delSlice_contiguous", "setSlice_contiguous"]
 RULE = ("four-way differential on every operation: the real DateTimeArray / TimeDeltaArray, a real Python list subjected to "
         "the same operation, the Lean list specification (Py/ListSpec.lean) and the Lean model of the implementation's "
         "algorithm (Model/BtArray.lean). Exhaustive part: every slice (start, stop in None/-7..7, step in None/-3..3 incl. 0) "
@@ -344,6 +346,57 @@ def run(ctx):
             if o1 != ("ok", want) or o2 != ("ok", not want):
                 ctx.violation(what="array equality is not equality of the element lists", left=la, right=lb, elements=n_el, ticks=str(ticks_)[:80],
                               observed=f"== {show(o1)[:40]}, != {show(o2)[:40]}", required=f"== {want}, != {not want}")
+    # ---- the 1-D NumPy primitives the generated methods are built from (Model/Np1.lean) against NumPy itself: slice assignment of a
+    #      list (matching, broadcast and mismatching lengths), np.delete by slice and by index, np.insert - on the arrays' own record dtype
+    #      and on plain int64 arrays ------------------------------------------------------------------------------------------------------
+    import numpy as _np
+    np1_lines, np1_want = [], []
+    B = [None, -6, -3, -1, 0, 1, 2, 3, 6]
+
+    def ren(l):
+        return "[" + ",".join(str(int(x)) for x in l) + "]"
+
+    def opt(x):
+        return "-" if x is None else str(x)
+    combos = []
+    for ln in range(0, 5):
+        for st_ in (None, 1, 2, -1, -2, 3):
+            for a_ in B:
+                for b_ in B:
+                    combos.append((ln, a_, b_, st_))
+    if ctx.quick:
+        combos = combos[::3]
+    for ln, a_, b_, st_ in combos:
+        base = list(range(10, 10 + ln))
+        for vl in (0, 1, 2, 3):
+            vs = list(range(70, 70 + vl))
+            arr = _np.array(base, _np.int64)
+            o = outcome(lambda: arr.__setitem__(slice(a_, b_, st_), vs))
+            np1_lines.append(f"np1 set {ren(base)} {opt(a_)} {opt(b_)} {opt(st_)} {ren(vs)}")
+            np1_want.append("ok " + ren(arr.tolist()) if o[0] == "ok" else "err " + o[1])
+        arr = _np.array(base, _np.int64)
+        o = outcome(lambda: _np.delete(arr, slice(a_, b_, st_)))
+        np1_lines.append(f"np1 del {ren(base)} {opt(a_)} {opt(b_)} {opt(st_)}")
+        np1_want.append("ok " + ren(o[1].tolist()) if o[0] == "ok" else "err " + o[1])
+    for ln in range(0, 5):
+        base = list(range(10, 10 + ln))
+        for p_ in range(-7, 8):
+            arr = _np.array(base, _np.int64)
+            o = outcome(lambda: _np.delete(arr, p_))
+            np1_lines.append(f"np1 delat {ren(base)} {p_}")
+            np1_want.append("ok " + ren(o[1].tolist()) if o[0] == "ok" else "err " + o[1])
+            for vl in (0, 1, 2):
+                vs = list(range(70, 70 + vl))
+                o = outcome(lambda: _np.insert(arr, p_, vs))
+                np1_lines.append(f"np1 ins {ren(base)} {p_} {ren(vs)}")
+                np1_want.append("ok " + ren(o[1].tolist()) if o[0] == "ok" else "err " + o[1])
+    np1_res = ctx.model(np1_lines, driver="drivers/Np1.lean")
+    for q, want, got in zip(np1_lines, np1_want, np1_res or []):
+        ctx.case(("np1", q))
+        if got != want:
+            ctx.mismatch(stream="NumPy 1-D primitives (T17)", request=q, model_says=got, code_says=want)
+            break
+    ctx.extra["np1_lines"] = len(np1_lines)
     # ---- the two Lean sides --------------------------------------------------------------------------------------------------
     for drv, label in (("drivers/C17.lean", "implementation model"), ("drivers/C17spec.lean", "list specification")):
         res = ctx.model(lines, driver=drv)
